@@ -542,6 +542,48 @@ def unroll_constant_loops(tree):
                             blk[i:i + 1] = new
                         continue
                 i += 1
+    # all(f(x) for x in <literal tuple of constants>)  ->  f(c1) and f(c2) and ...   (any -> or): same tests in the same order
+    for fn in [x for x in ast.walk(tree) if isinstance(x, (ast.FunctionDef, ast.AsyncFunctionDef))]:
+        tables = {}
+        for n in ast.walk(fn):
+            if isinstance(n, ast.Assign) and len(n.targets) == 1 and isinstance(n.targets[0], ast.Name) and \
+                    isinstance(n.value, (ast.Tuple, ast.List)) and all(isinstance(e, ast.Constant) for e in n.value.elts):
+                nm = n.targets[0].id
+                if sum(1 for x in ast.walk(fn) if isinstance(x, ast.Name) and x.id == nm) == 2:
+                    tables[nm] = n
+
+        class Q(ast.NodeTransformer):
+            used = set()
+
+            def visit_Call(self, n):
+                self.generic_visit(n)
+                if isinstance(n.func, ast.Name) and n.func.id in ('all', 'any') and len(n.args) == 1 and not n.keywords and \
+                        isinstance(n.args[0], (ast.GeneratorExp, ast.ListComp)) and len(n.args[0].generators) == 1:
+                    g = n.args[0].generators[0]
+                    it = g.iter
+                    nm = None
+                    if isinstance(it, ast.Name) and it.id in tables:
+                        nm, it = it.id, tables[it.id].value
+                    elif isinstance(it, ast.Name) and consts.get(it.id) is not None:
+                        it = consts[it.id]
+                    if isinstance(it, (ast.Tuple, ast.List)) and 0 < len(it.elts) <= 24 and all(isinstance(e, ast.Constant) for e in it.elts) \
+                            and not g.ifs and isinstance(g.target, ast.Name) and not g.is_async:
+                        vals = [Sub({g.target.id: e}).visit(copy.deepcopy(n.args[0].elt)) for e in it.elts]
+                        if nm:
+                            Q.used.add(nm)
+                        op = ast.And() if n.func.id == 'all' else ast.Or()
+                        return ast.copy_location(ast.BoolOp(op=op, values=vals) if len(vals) > 1 else vals[0], n)
+                return n
+        Q.used = set()
+        Q().visit(fn)
+        if Q.used:
+            for node_ in ast.walk(fn):
+                for fld_ in ('body', 'orelse', 'finalbody'):
+                    b_ = getattr(node_, fld_, None)
+                    if isinstance(b_, list):
+                        for nm in Q.used:
+                            if tables[nm] in b_ and len(b_) > 1:
+                                b_.remove(tables[nm])
     # setattr with a literal name
     for node, fld, blk in list(_blocks(tree)):
         for i, st in enumerate(blk):
